@@ -1,3 +1,4 @@
+import IceTie.Options
 import IceTie.AgentNomination
 import IceTie.AgentSuccess
 import IceTie.AgentSelector
@@ -1385,5 +1386,30 @@ example : selAddrs (Sys.runs (Sys.runs s0Auto preAuto) exAuto).a = some (16, 192
     (by set_option maxRecDepth 100000 in decide) (by set_option maxRecDepth 100000 in decide)
 
 end TwoAgentAutoExample
+
+/-! ## Tie to the code (T, round 4): the renomination OPTIONS of agent_options.go (`IceGen.T_Options`) -/
+
+/-- `WithRenomination` refuses a nil generator and otherwise enables renomination; `WithAutomaticRenomination` switches the automatic
+renomination on, writes the interval only when it is positive, and does NOT enable renomination (the model's `autoRenom` block needs
+both switches); `WithNominationAttribute` refuses the reserved type 0 -/
+theorem C20_code_renomination_options :
+    (∀ constructed genNil, IceGen.opt_WithRenomination constructed genNil
+      = IceTie.Options.guard constructed (if genNil then ([], "ErrInvalidNominationValueGenerator")
+          else ([IceTie.Options.setB "a.enableRenomination" true, IceModel.Eff.set "a.nominationValueGenerator" (IceModel.Val.s "generator")], "nil"))) ∧
+    (∀ constructed (interval : Int64), IceGen.opt_WithAutomaticRenomination constructed interval
+      = IceTie.Options.guard constructed (IceTie.Options.setB "a.automaticRenomination" true ::
+          (if interval > 0 then [IceTie.Options.setI "a.renominationInterval" interval] else []), "nil")) ∧
+    (∀ constructed (attrType : UInt16), IceGen.opt_WithNominationAttribute constructed attrType
+      = IceTie.Options.guard constructed (if attrType == 0 then ([], "ErrInvalidNominationAttribute")
+          else ([IceTie.Options.setN "a.nominationAttribute" attrType], "nil"))) ∧
+    (∀ (cfg : IceModel.AgentCore.Config) (interval : Int64),
+      (IceTie.Options.applyEffs cfg (IceGen.opt_WithAutomaticRenomination false interval).1).enableRenomination = cfg.enableRenomination ∧
+      (IceTie.Options.applyEffs cfg (IceGen.opt_WithAutomaticRenomination false interval).1).autoRenom = true) :=
+  ⟨IceTie.Options.WithRenomination_tie, IceTie.Options.WithAutomaticRenomination_tie, IceTie.Options.WithNominationAttribute_tie, IceTie.Options.auto_does_not_enable⟩
+
+example : IceGen.opt_WithRenomination false true = ([], "ErrInvalidNominationValueGenerator") ∧
+    (IceTie.Options.applyEffs {} (IceGen.opt_WithAutomaticRenomination false 1000000000).1).renomInterval = 1000000000 ∧
+    (IceTie.Options.applyEffs {} (IceGen.opt_WithAutomaticRenomination false 0).1).renomInterval = 3000000000 ∧
+    IceGen.opt_WithNominationAttribute false 0 = ([], "ErrInvalidNominationAttribute") := by decide
 
 end IceProps.C20
